@@ -188,7 +188,7 @@ MemDepCase(x) ==
 
 (* ------------------------------- MemWalk (C05) ----------------------------- *)
 (* loop 1 walks `count` elements with `stride` from `first`, doing `mix`; loop 2 re-reads them and sums into t2 *)
-Mixes == {"l", "s", "ls", "sl", "rmw", "ssl", "hot"}
+Mixes == {"l", "s", "ls", "sl", "rmw", "ssl", "hot", "wrap"}   \* "wrap": the address wraps inside 2 KB (32 lines), every line is revisited within one loop
 HotAddr == 5760   \* "hot": one line is read-modified-written in every iteration of both loops while the walk streams past it
 Body(mix, w) ==
   LET L == IF w = 1 THEN Lb("t0", "a0", 0) ELSE IF w = 2 THEN Lh("t0", "a0", 0) ELSE Lw("t0", "a0", 0)
@@ -199,22 +199,38 @@ Body(mix, w) ==
        [] mix = "sl" -> <<S, L, AddI("t2", "t2", "t0"), Addi("t1", "t1", 3)>>
        \* two store misses in a row keep the write path busy while the second line is re-read
        [] mix = "ssl" -> <<S, [S EXCEPT !.imm = 64], [L EXCEPT !.imm = 64], AddI("t2", "t2", "t0"), Addi("t1", "t1", 3)>>
+       [] mix = "wrap" -> <<L, AddI("t2", "t2", "t0")>>
        [] mix = "hot" -> <<Lw("t0", "ra", 0), Addi("t0", "t0", 1), Sw("t0", "ra", 0), L, AddI("t2", "t2", "t0")>>
        [] mix = "rmw" -> <<L, Addi("t0", "t0", 1), IF w = 1 THEN Sb("t0", "a0", 0) ELSE IF w = 2 THEN Sh("t0", "a0", 0) ELSE Sw("t0", "a0", 0)>>
 WalkProg(mix, w, stride, count, first) ==
   LET b == Body(mix, w)
       pre == IF mix = "hot" THEN <<Li("ra", HotAddr)>> ELSE <<>>
       l1 == Len(pre) + 2                             \* 0-based index of loop 1 head
-      loop1 == b \o <<Addi("a0", "a0", stride), Addi("t3", "t3", -1), I("bnez", "zero", "t3", "zero", 0, l1)>>
-      l2 == l1 + Len(loop1) + 2
       rd == IF w = 1 THEN Lb("t0", "a1", 0) ELSE IF w = 2 THEN Lh("t0", "a1", 0) ELSE Lw("t0", "a1", 0)
       hot2 == IF mix = "hot" THEN <<Lw("t0", "ra", 0), AddI("t2", "t2", "t0")>> ELSE <<>>
+  IN
+  IF mix = "wrap"
+  THEN \* top-tested loops closed by a jump: the only taken conditional branch is the exit, so that variants
+       \* that flush on every taken conditional branch run the whole walk without a flush
+       LET body1 == b \o <<Addi("a0", "a0", stride), I("andi", "a0", "a0", "zero", 2047, 0), Addi("t3", "t3", -1)>>
+           x1 == l1 + 1 + Len(body1) + 1               \* index after loop 1
+           loop1 == <<I("beqz", "zero", "t3", "zero", 0, x1)>> \o body1 \o <<J(l1)>>
+           l2 == x1 + 2
+           body2 == <<rd, AddI("t2", "t2", "t0"), Addi("a1", "a1", stride), I("andi", "a1", "a1", "zero", 2047, 0), Addi("t3", "t3", -1)>>
+           x2 == l2 + 1 + Len(body2) + 1
+           loop2 == <<I("beqz", "zero", "t3", "zero", 0, x2)>> \o body2 \o <<J(l2)>>
+       IN <<Li("a0", first), Li("t3", count)>> \o loop1 \o <<Li("a1", first), Li("t3", count)>> \o loop2 \o <<Nop>>
+  ELSE
+  LET loop1 == b \o <<Addi("a0", "a0", stride), Addi("t3", "t3", -1), I("bnez", "zero", "t3", "zero", 0, l1)>>
+      l2 == l1 + Len(loop1) + 2
       loop2 == <<rd, AddI("t2", "t2", "t0")>> \o hot2 \o <<Addi("a1", "a1", stride), Addi("t3", "t3", -1), I("bnez", "zero", "t3", "zero", 0, l2)>>
   IN pre \o <<Li("a0", first), Li("t3", count)>> \o loop1 \o <<Li("a1", first), Li("t3", count)>> \o loop2 \o <<Nop>>
 WalkCases == { <<"hot", w, 128, 40, first>> : w \in {1, 2, 4}, first \in {0, 60} }   \* more L3 lines than MVP-8's L3 holds stream past the hot line
              \cup
+             { <<"wrap", w, 64, 80, first>> : w \in {1, 2, 4}, first \in {0, 60} }
+             \cup
              { <<mix, w, stride, count, first>> :
-                 mix \in Mixes \ {"hot"}, w \in {1, 2, 4},
+                 mix \in Mixes \ {"hot", "wrap"}, w \in {1, 2, 4},
                  stride \in (IF Size = "large" THEN {4, 64, 68, 128, 132} ELSE {64, 68}),
                  count \in (IF Size = "large" THEN {18, 36, 40} ELSE {20}),
                  first \in (IF Size = "large" THEN {0, 4, 60, 64, 100, -1} ELSE {0, 60, -1}) }   \* -1: the walk ends at the top of memory
